@@ -255,7 +255,7 @@ Proof.
   rewrite is_digit_char by assumption.
   destruct (N.eq_dec q 0) as [Q0|Q0].
   - (* q = 0: the string starts with "0." *)
-    subst q. rewrite dec_digits_zero in E. inversion E; subst d ds.
+    clear V. subst q. rewrite dec_digits_zero in E. inversion E; subst d ds.
     change (digit_char 0 =? 48) with true. cbv iota. cbn [map app].
     change (46 =? 46) with true. cbv iota. exact F.
   - assert (Hd : 0 < d) by (eapply dec_digits_head_pos; eauto; lia).
@@ -325,13 +325,27 @@ Proof.
   reflexivity.
 Qed.
 
+Lemma mod_split : forall m k c, k <> 0 -> c <> 0 ->
+  (m mod (k * c)) / k * k + m mod k = m mod (k * c).
+Proof.
+  intros m k c Hk Hc. rewrite (N.mod_mul_r m k c Hk Hc).
+  set (x := (m / k) mod c). pose proof (N.mod_lt m k Hk) as L.
+  replace (m mod k + k * x) with (m mod k + x * k) by lia.
+  rewrite N.div_add by exact Hk. rewrite (N.div_small (m mod k) k L). lia.
+Qed.
+
 Theorem duration_parse_print_all : forall m, m < W64 -> parse_duration (print_duration m) = Ok m.
 Proof.
   intros m Hm. unfold parse_duration, print_duration, split_ws.
   set (a := m / MS_D). set (b := (m mod MS_D) / MS_H). set (c := (m mod MS_H) / MS_M).
   set (d := (m mod MS_M) / MS_S). set (e := m mod MS_S).
   assert (Sum : a * MS_D + b * MS_H + c * MS_M + d * MS_S + e = m).
-  { unfold a, b, c, d, e, MS_D, MS_H, MS_M, MS_S. lia. }
+  { unfold a, b, c, d, e, MS_D, MS_H, MS_M, MS_S.
+    pose proof (N.div_mod m 86400000 ltac:(lia)) as E0.
+    pose proof (mod_split m 3600000 24 ltac:(lia) ltac:(lia)) as E1. change (3600000 * 24) with 86400000 in E1.
+    pose proof (mod_split m 60000 60 ltac:(lia) ltac:(lia)) as E2. change (60000 * 60) with 3600000 in E2.
+    pose proof (mod_split m 1000 60 ltac:(lia) ltac:(lia)) as E3. change (1000 * 60) with 60000 in E3.
+    lia. }
   assert (nw : forall n u, no_ws u -> no_ws (print_dec n ++ u)) by (intros; apply no_ws_app; [apply no_ws_print_dec | assumption]).
   assert (ne : forall n (u : list N), print_dec n ++ u <> []).
   { intros n u X. apply app_eq_nil in X. destruct X as [X _]. exact (print_dec_nonempty n X). }
